@@ -109,6 +109,12 @@ def plan(tier, seed):
             nullable = [f for f in lay.fields if f["kind"] in "AIFC" and not required(f) and not padding_like(f["name"])]
             for f in nullable:
                 cases.append({"spec": spec, "devs": [dev(file, inst, f, b" " * f["w"])], "label": f"{level} blank {file}.{inst}.{f['key']}"})
+                if f["kind"] == "C":
+                    # the real and imaginary parts are separate nullable fields of the format
+                    h = f["w"] // 2
+                    val = synth.baseline_value(f, 6)
+                    cases.append({"spec": spec, "devs": [dev(file, inst, f, b" " * h + val[h:])], "label": f"{level} blank real part of {file}.{inst}.{f['key']}"})
+                    cases.append({"spec": spec, "devs": [dev(file, inst, f, val[:h] + b" " * h)], "label": f"{level} blank imaginary part of {file}.{inst}.{f['key']}"})
             if nullable:
                 cases.append({"spec": spec, "devs": [dev(file, inst, f, b" " * f["w"]) for f in nullable], "label": f"{level} blank all of {file}.{inst}"})
             if tier == "thorough" and len(nullable) <= 80:
